@@ -1,16 +1,7 @@
 package scenarios
 
-import (
-	"github.com/lni/dragonboat/v4/verifsim/l0/logstore"
-	"github.com/lni/dragonboat/v4/verifsim/runner"
-)
+import "github.com/lni/dragonboat/v4/verifsim/l0/logstore"
 
-func init() {
-	runner.RegisterScenario(&runner.Scenario{
-		Name: "l0/logstore",
-		Real: []string{"internal/tan (regular and multiplexed)", "internal/logdb ShardedDB (plain and batched entry format)", "internal/logdb/kv/pebble + cockroachdb/pebble"},
-		Stub: []string{"disk (SimFS over lni/vfs StrictMem)", "raft core / engine (workload generator honouring their call preconditions)"},
-		Rule: "TODO",
-		Run:  logstore.Run,
-	})
-}
+// The l0/logstore scenario and the checks C09 and C10 are described in
+// l0/logstore/register.go.
+func init() { logstore.Register() }
